@@ -186,7 +186,7 @@ fn tables(cx: &mut Ctx, src: &sm::Src) {
     }
     // consume_length: exactly one optional modifier
     match src.free_fns("consume_length").into_iter().next() {
-        Some(f) if sm::tsx(&f.block) == "{ifletSome(&(_,c))=iter.peek(){letc=c.into();ifc=='h'||c=='l'||c=='L'{iter.next().unwrap();}}}" => cx.ok(rule, "consume_length skips at most one of h / l / L"),
+        Some(f) if sm::tsx(&f.block) == "{matchiter.peek(){Some(&(_,c))=>{letc=c.into();ifc=='h'||c=='l'||c=='L'{iter.next().unwrap();}},_=>{},}}" => cx.ok(rule, "consume_length skips at most one of h / l / L"),
         Some(f) => cx.fail(rule, &format!("{}/length-modifier", rule), &src.loc(f), "consume_length does not skip exactly one optional h / l / L (Python rejects `%lld` as an unsupported format character)"),
         None => cx.anchor_missing(rule, "consume_length"),
     }
@@ -210,7 +210,7 @@ fn parse_order(cx: &mut Ctx, src: &sm::Src) {
     }
     let t = sm::tsx(&src.file);
     for (k, frag) in [
-        ("percent-str", "ifsecond=='%'{iter.next().unwrap();literal.push('%');continue;}"),
+        ("percent-str", "matchsecond{'%'=>{iter.next().unwrap();literal.push('%');continue;},"),
         ("percent-bytes", "ifsecond==b'%'{iter.next().unwrap();literal.push(b'%');continue;}"),
     ] {
         if t.contains(frag) {
@@ -224,7 +224,7 @@ fn parse_order(cx: &mut Ctx, src: &sm::Src) {
     } else {
         cx.fail(rule, &format!("{}/incomplete", rule), &src.rel, "a trailing `%` is not reported as IncompleteFormat at index + 1 in both splitters");
     }
-    if t.contains("ifchars.next().map(|x|x.1)!=Some('%'){returnErr((CFormatErrorType::MissingModuloSign,1));}") {
+    if t.contains("matchchars.next().map(|x|x.1){Some('%')=>{},_=>{returnErr((CFormatErrorType::MissingModuloSign,1));},}") {
         cx.ok(rule, "CFormatSpec::from_str requires the leading `%`");
     } else {
         cx.fail(rule, &format!("{}/modulo", rule), &src.rel, "CFormatSpec::from_str does not require the leading `%`");
@@ -241,7 +241,7 @@ fn padding(cx: &mut Ctx, src: &sm::Src) {
         ("fill-count", "letwidth=match&self.min_field_width{Some(CFormatQuantity::Amount(width))=>cmp::max(width,&num_chars),_=>&num_chars,};letfill_chars_needed=width.saturating_sub(num_chars);", "fill count = max(width, chars) - chars with chars counted in characters (+ prefix)"),
         ("zero-pad-number", "ifself.flags.contains(CConversionFlags::ZERO_PAD){letfill_char=if!self.flags.contains(CConversionFlags::LEFT_ADJUST){'0'}else{' '};letsigned_prefix=format!(\"{sign_string}{prefix}\");format!(\"{}{}\",signed_prefix,self.fill_string(padded_magnitude_string,fill_char,Some(signed_prefix.chars().count()),),)}", "format_number: sign+prefix first, counted in the width, '-' overrides '0'"),
         ("zero-pad-float", "ifself.flags.contains(CConversionFlags::ZERO_PAD){letfill_char=if!self.flags.contains(CConversionFlags::LEFT_ADJUST){'0'}else{' '};format!(\"{}{}\",sign_string,self.fill_string(magnitude_string,fill_char,Some(sign_string.chars().count()),))}", "format_float: sign first, counted in the width, '-' overrides '0'"),
-        ("precision-truncate", "Some(CFormatPrecision::Quantity(CFormatQuantity::Amount(precision)))ifstring.chars().count()>*precision=>{string.chars().take(*precision).collect::<String>()}", "string precision truncates by characters"),
+        ("precision-truncate", "Some(CFormatPrecision::Quantity(CFormatQuantity::Amount(precision)))if*precision<string.chars().count()=>{string.chars().take(*precision).collect::<String>()}", "string precision truncates by characters"),
         ("precision-zero-fill", "letpadded_magnitude_string=self.fill_string_with_precision(magnitude_string,'0');", "integer precision = minimum digits (zero fill on the left)"),
     ];
     for (k, frag, what) in checks {
